@@ -75,6 +75,14 @@ def gen_cases(tier, seed):
             for f in allforms[cd]:
                 for _ in range(2):
                     add(cd, r.choice(bd), r.choice(tods), f)
+    # letter case (C11 makes it irrelevant): every form once in capitals and once capitalised as at the start of a
+    # sentence -- 'ÜBERMORGEN' contains 'MORGEN', so a case slip on a non-ASCII letter silently gives another day
+    bd2 = cal.boundary_dates()
+    for cd in concepts:
+        for f in allforms[cd]:
+            for v in (f.upper(), f.capitalize()):
+                if v != f:
+                    add(cd, r.choice(bd2), r.choice(tods), v)
     # omitted reference time == injected now
     # (the host is modelled as being `off` minutes away from UTC, see attach.FixedNow) and, with the REAL clock, in a
     # process whose zone is set so far from UTC that the local and the UTC calendar day differ right now
